@@ -719,6 +719,20 @@ func (p *Parser) parseIndexExpression(left ast.Node) ast.Node {
 	if isDot {
 		return exp
 	}
+	// The open ended n: is the index itself (a[n:]), not an operand inside it (a[b=1:], a[b||1:]).
+	if root, ok := exp.Index.(*ast.InfixExpression); ok {
+		for in := root.Right; in != nil; {
+			inner, isInfix := in.(*ast.InfixExpression)
+			if !isInfix {
+				break
+			}
+			if inner.Right == nil {
+				p.noPrefixParseFnError(p.peekToken) // same as any other missing operand: ] is not an expression.
+				return nil
+			}
+			in = inner.Right
+		}
+	}
 
 	if !p.expectPeek(token.RBRACKET) {
 		return nil
